@@ -10,7 +10,7 @@ import core, parsecase, universe, shellrun
 
 PROP_FILE = 'props/C19.v'
 
-TRACKED = ['\\ulatea', '\\ulateb', '\\unkd', '\\unka', '\\unkb', '\\unkc', '\\unkz', '\\mun', '\\muo', 'my block',
+TRACKED = ['\\unkgl', '\\unkgd', '\\ulatea', '\\ulateb', '\\unkd', '\\unka', '\\unkb', '\\unkc', '\\unkz', '\\mun', '\\muo', 'my block',
            'blockx', 'my  env', '\\foo']
 
 
@@ -110,6 +110,33 @@ def declared_stream(res):
                                      'undeclared names used: %r, listed: %r' % (unknown, names)))
 
 
+def glossary_stream(res):
+    """glossary entries whose text holds an undeclared macro: every way of
+    referring to the entry uses that macro in text, under its own name"""
+    from gens import docs
+    pre = '\\usepackage{glossaries}\\LTinput{main.glsdefs}\n'
+    for body, want in (('\\gls{mu} A', ['\\unkgl']), ('\\Gls{mu} A', ['\\unkgl']),
+                       ('\\GLS{mu} A', ['\\unkgl']), ('\\GLSpl{mu} A \\glspl{mu}', ['\\unkgl']),
+                       ('\\GLSdesc{mu} A', ['\\unkgd']), ('\\glsdesc{mu} \\GLS{mu}', ['\\unkgd', '\\unkgl']),
+                       ('\\GLS{pp} \\GLS{ex}', [])):
+        c = parsecase.T2T(pre + body + '\n', lang='en', pack='*', unkn=True,
+                          files={'main.glsdefs': docs.GLSDEFS})
+        universe.scratch_dir()
+        with open('main.glsdefs', 'w') as f:
+            f.write(docs.GLSDEFS)
+        im = parsecase.run_t2t(c)
+        res.count('glossary', c.key())
+        names = [n for n in im[1][1].split('\n') if n] if im[0] == 'OK' else [repr(im[:2])]
+        if names != want:
+            res.failures.append(('c19-gls:%r' % body, c.json(),
+                                 'undeclared names used through the glossary: %r, listed: %r'
+                                 % (want, names)))
+        mo = parsecase.parse_model_t2t(core.run_model([parsecase.model_line_t2t(c)])[0])
+        if project(im) != project(mo):
+            res.disagreements.append(('glossary', c.json(), repr(project(im))[:300],
+                                      repr(project(mo))[:300]))
+
+
 def repl_stream(res):
     """a replacement list never rewrites the list of names"""
     from yalafi import tex2txt
@@ -169,6 +196,7 @@ def run(tier, seed, build, res):
     repl_stream(res)
     text_env_stream(res)
     declared_stream(res)
+    glossary_stream(res)
     shell_stream(rng, res, 3)
 
 
